@@ -209,7 +209,7 @@ pub fn main(args: &Args) -> i32 {
             }
         };
     }
-    let cases = if args.cases > 0 { args.cases } else if args.thorough() { 40000 } else { 3000 };
+    let cases = if args.cases > 0 { args.cases } else if args.thorough() { 50000 } else { 5000 };
     let res = drive(&literal_defs(), cases, args.seed ^ 0xC10, 600, &mut run, |def, run| check(def, run).map_err(|e| e.1));
     let code = match res {
         DriveResult::Pass => 0,
